@@ -1122,3 +1122,13 @@ def loop_exits_only_when_exhausted(ctx, body, block):
         if not any(g.kind == "is" and g.name in ("None", "Break") and g.a is not None and g.a[0] == "call" and re.search(r"::next$", g.a[1] or "") for g in gs_):
             return False
     return bool(exits)
+
+
+def user_children(prog, body):
+    """Closures created in `body` by the program text itself: those that `tracing::` / formatting macros expand to are left out, so
+    that adding a log statement does not change which closure a rule is talking about."""
+    made_by_macro = set()
+    for b, si, st in body.assigns():
+        if st.rv["k"] == "agg" and st.rv.get("def") and (is_tracing(st.macros) or any(m.startswith(("tracing::", "log::")) for m in (st.macros or ()))):
+            made_by_macro.add(st.rv["def"])
+    return [c for c in prog.children(body) if c.path not in made_by_macro and not any(m.startswith(("tracing::", "log::")) for m in getattr(c, "span_macros", ()))]
